@@ -18,7 +18,7 @@ import (
 // axis redrawn per run; outcome predicted by the policy model of DESIGN.md
 // Appendix A where the documentation is unambiguous.
 
-var benignFaults = []string{"resegment", "dribble", "random-cuts", "latency", "jitter", "short-read", "finite-window", "starved-node", "deadline-retry", "preempt"}
+var benignFaults = []string{"resegment", "dribble", "random-cuts", "latency", "jitter", "short-read", "finite-window", "starved-node", "deadline-retry", "preempt", "short-reads-from-rand"}
 var benignReach = []string{"A1-proto-mismatch", "A2-version", "A3-no-suite", "A4-ecdhe-gm", "A5-missing-certs", "A6-server-verify", "A7-client-auth", "A8-callback-error", "A9-complete",
 	"gm-cbc", "gm-gcm", "tls10", "tls11", "tls12", "client-cert-sent", "callbacks-cert", "getconfigforclient", "payload>=16k", "payload-0", "stdlib-client", "stdlib-server", "wire-decoded", "vhost-second-name", "timeout-retried", "auto-gm", "auto-tls", "wire-decoded-tls12", "alpn-negotiated", "client-chain-with-intermediate"}
 
@@ -724,6 +724,11 @@ func runTLSBenign(c *simkit.Choice, r *simkit.Rec) {
 	}
 	entC := simkit.NewStream(uint64(c.Choose(1<<31, simkit.LEntropy)) + 11)
 	entS := simkit.NewStream(uint64(c.Choose(1<<31, simkit.LEntropy)) + 77)
+	// Config.Rand is an io.Reader: it may return fewer bytes than asked for
+	if c.Bool(1, 4, simkit.LScen) {
+		entC.Short, entS.Short = true, true
+		r.Fault(idx(benignFaults, "short-reads-from-rand"))
+	}
 
 	s := simkit.NewSim(c, pol, 4000000)
 	a, b := s.NewConnPair("cli", "srv", netAB, netBA)
